@@ -2,8 +2,8 @@
 // over the package's fake client) on generated histories and prints one case per history: the
 // mutations with their results, and every observation (result lists in arrival order, error class,
 // whether the stream was closed within the deadline). For cosmosdb the fake does not interpret query
-// text, so additionally the text and parameters of buildSearchQuery (hook VerifSearchQuery) are parsed
-// into the Query.v AST, and the raw search item written by Create / UpdatePlan is read back (hook
+// text, so additionally the text and parameters of buildSearchQuery and of List (hooks VerifSearchQuery,
+// VerifListQuery) are parsed into the Query.v AST, and the raw search item written by Create / UpdatePlan is read back (hook
 // SearchItemRaw); Coq evaluates the AST over those items.
 //
 // Histories run in worker processes (this binary re-executed with -worker): a panic in a background
@@ -28,6 +28,7 @@ import (
 	"verifharness/hplug"
 	"verifharness/plangen"
 
+	"github.com/Azure/azure-sdk-for-go/sdk/data/azcosmos"
 	"github.com/element-of-surprise/coercion/workflow"
 	"github.com/element-of-surprise/coercion/workflow/storage"
 	"github.com/element-of-surprise/coercion/workflow/storage/cosmosdb"
@@ -542,14 +543,6 @@ func (s *scenario) search(f filterSpec) {
 }
 
 func (s *scenario) list(limit int) {
-	if s.vt.cosmos && limit > 0 {
-		// the fake's limit pager asserts p.Value.(int64) on an int and panics: not the code under test
-		s.hist["list:skipped-fake-limit"]++
-		return
-	}
-	o := observeStream(s.a, s.h, s.backend+":list", func(ctx context.Context) (chan storage.Stream[storage.ListResult], error) {
-		return s.vt.v.List(ctx, limit)
-	})
 	rel := "n"
 	switch n := len(s.live); {
 	case limit < 0:
@@ -567,6 +560,31 @@ func (s *scenario) list(limit int) {
 	case limit > n:
 		rel = ">n"
 	}
+	if s.vt.cosmos {
+		// the text and parameters the real Cosmos service would receive from List
+		var text string
+		var params []azcosmos.QueryParameter
+		class, note := guarded(func(ctx context.Context) error {
+			var err error
+			text, params, err = cosmosdb.VerifListQuery(ctx, swarmName, limit)
+			return err
+		})
+		q, b, perr := parseCosmos(s.a, text, params)
+		if class != 0 {
+			perr = strings.TrimSpace(perr + " VerifListQuery: " + note)
+		}
+		s.hist["list-text-limit:"+rel]++
+		s.add(stepRec{Kind: "list-text", Input: map[string]any{"limit": limit}, Obs: map[string]any{"text": text, "params": fmt.Sprint(params)}, Note: perr,
+			term: core.App("TListQuery", core.Z(int64(limit)), q, b), limit: &limit})
+	}
+	if s.vt.cosmos && limit > 0 {
+		// the fake's limit pager asserts p.Value.(int64) on an int and panics: not the code under test
+		s.hist["list:skipped-fake-limit"]++
+		return
+	}
+	o := observeStream(s.a, s.h, s.backend+":list", func(ctx context.Context) (chan storage.Stream[storage.ListResult], error) {
+		return s.vt.v.List(ctx, limit)
+	})
 	s.hist["limit:"+rel]++
 	s.add(stepRec{Kind: "list", Input: map[string]any{"limit": limit}, Obs: o, Note: o.Note,
 		term: core.App("TList", core.B(!s.vt.cosmos), core.Z(int64(limit)), o.term()), limit: &limit})
